@@ -85,6 +85,107 @@ def model_phase(run, bounds, invariants, want_pairs=False, max_single=None, faul
     return list(singles.values()), pairs
 
 
+def hist_phase(run, max_hist, invariants=('HistInv',), kinds=('dict', 'odict', 'ddict', 'deque')):
+    """TLC over HistGen; returns work items {'t', 'hist'} for every state that embeds its container"""
+    cfg = f'''SPECIFICATION HSpec
+CONSTANTS
+  MaxNodes = 1
+  MaxStack = 1
+  MaxArity = 1
+  Kinds = {{}}
+  KeyU <- MCKeyU
+  NtCls <- MCNtCls
+  CustomCls <- MCCustomCls
+  Metas = {{1}}
+  MaxLens = {{0}}
+  Factories = {{0}}
+  Faults = {{}}
+  Reg0 <- MCReg0
+  NsSet = {{"", "a"}}
+  ModeSet <- MCModeSet
+  PredSet <- MCPredSet
+  Depth = 10
+  HKinds = {treecfg.tla_set(kinds)}
+  HKeys <- MCHKeys
+  MaxHist = {max_hist}
+  HMaxLen = 3
+''' + ''.join(f'INVARIANT {i}\n' for i in invariants) + 'CHECK_DEADLOCK FALSE\n'
+    r = run.tlc(f'hist{max_hist}', 'MC_Hist', cfg, dump=True, timeout=3000)
+    if r.violated:
+        tr = tla.error_trace(r.out)
+        run.violation({'kind': 'model', 'invariant': r.violated, 'trace': [thaw(s) for _, s in tr][-1:]},
+                      f'TLC: law {r.violated} fails on the specification itself (HistGen)')
+    items = []
+    if r.dump and os.path.exists(r.dump):
+        for st in tla.read_dump(r.dump):
+            if st['embed'] == 'none':
+                continue
+            ops = [[o[0], list(o[1]), o[2]] for o in st['hist']]
+            items.append({'t': thaw(st['obs']), 'hist': {'id': 900, 'kind': st['kind'], 'maxlen': 3, 'ops': ops}})
+        os.remove(r.dump)
+    shutil.rmtree(os.path.join(r.wd, 'meta'), ignore_errors=True)
+    return items
+
+
+def random_hist_items(seed, count, max_ops=30):
+    """long random histories (code -> spec direction); the expected logical content is computed by the same rules as HistGen
+    and is confirmed against the real container by the driver's self-check"""
+    from harness.vuniv_model import T
+    rng = random.Random(seed)
+    items = []
+    for _ in range(count):
+        kind = rng.choice(['dict', 'odict', 'ddict', 'deque'])
+        keys, vals, ops, nxt = [], [], [], 1
+        pool = [list(k) for k in rng.sample(KEYS, 6)]
+        maxlen = 3
+        for _ in range(rng.randint(1, max_ops)):
+            if kind == 'deque':
+                op = rng.choice(['append', 'appendleft', 'rotate'])
+                if op == 'append':
+                    vals = (vals[1:] if len(vals) == maxlen - 1 else vals) + [nxt]
+                    ops.append(['append', [0, 0], nxt]); nxt += 1
+                elif op == 'appendleft':
+                    vals = [nxt] + (vals[:-1] if len(vals) == maxlen - 1 else vals)
+                    ops.append(['appendleft', [0, 0], nxt]); nxt += 1
+                elif len(vals) >= 2:
+                    vals = [vals[-1]] + vals[:-1]
+                    ops.append(['rotate', [0, 0], 1])
+                continue
+            k = rng.choice(pool)
+            op = rng.choice(['set', 'set', 'del', 'move', 'miss'])
+            if op == 'set':
+                if k in keys:
+                    vals[keys.index(k)] = nxt
+                else:
+                    keys.append(k); vals.append(nxt)
+                ops.append(['set', k, nxt]); nxt += 1
+            elif op == 'del' and k in keys:
+                i = keys.index(k); del keys[i]; del vals[i]
+                ops.append(['del', k, 0])
+            elif op == 'move' and kind == 'odict' and k in keys:
+                last = rng.random() < 0.5
+                i = keys.index(k); v = vals[i]; del keys[i]; del vals[i]
+                if last:
+                    keys.append(k); vals.append(v)
+                else:
+                    keys.insert(0, k); vals.insert(0, v)
+                ops.append(['move', k, 1 if last else 0])
+            elif op == 'miss' and kind == 'ddict' and k not in keys:
+                keys.append(k); vals.append(nxt)
+                ops.append(['miss', k, nxt]); nxt += 1
+        if not ops:
+            continue
+        cont = T(kind, 900, [T('leaf', v) for v in vals], keys=[] if kind == 'deque' else keys,
+                 meta=maxlen if kind == 'deque' else 4 if kind == 'ddict' else 0)
+        e = rng.choice(['root', 'tuple', 'custom', 'dictval', 'list2'])
+        t = cont if e == 'root' else T('tuple', 901, [T('leaf', 800), cont]) if e == 'tuple' else \
+            T('custom', 901, [cont], meta=1, cls=1) if e == 'custom' else \
+            T('dict', 901, [cont, T('leaf', 800)], keys=[[1, 4], [1, 2]]) if e == 'dictval' else \
+            T('list', 902, [T('odict', 901, [cont], keys=[[0, 3]]), T('none', 0)])
+        items.append({'t': t, 'hist': {'id': 900, 'kind': kind, 'maxlen': maxlen, 'ops': ops}})
+    return items
+
+
 # ------------------------------------------------------------------------------------------------
 # seeded random model trees (the code -> spec direction goes far beyond TLC's bound)
 # ------------------------------------------------------------------------------------------------
@@ -180,6 +281,16 @@ def random_trees(seed, count, max_nodes=40, **kw):
     return out
 
 
+def inject_fault(t, rng, faults):
+    """turn one registered-custom node of t into a malformed one (single fault per tree); no-op if there is none"""
+    cands = [s for s in subtrees(t) if s['k'] == 'custom' and s['cls'] in (1, 3)]
+    if cands:
+        s = rng.choice(cands)
+        s['fault'] = rng.choice(list(faults))
+        s['hasent'] = False
+        s['ent'] = []
+
+
 def sample_cfgs(rng, k, always_default=True):
     cs = rng.sample(CFGS, k)
     if always_default and DEFAULT_CFG not in cs:
@@ -216,6 +327,8 @@ def write_work(path, items):
 
 def drive_and_judge(run, label, items, families, driver='harness.drivers.d_tree', describe=None):
     """items: list of {'t':..., 'cfgs': [...]} ; returns number of failing cases reported"""
+    if not items and 'depth' not in families:
+        return 0
     wd = os.path.join(tla.WORK, f'{run.pid}-{label}')
     os.makedirs(wd, exist_ok=True)
     inp, outp = os.path.join(wd, 'work.ndjson'), os.path.join(wd, 'cases.in.ndjson')
